@@ -134,7 +134,7 @@ pub fn observe(_ctx: &Ctx, st: &mut Stats, rj: &RJob) {
             }
         }
     }
-    let svg = match adapter::guarded(|| rj.spec.svg_builder().to_str(&qr)) {
+    let svg = match adapter::guarded(|| rj.spec.svg_builder_for(Some(&qr)).to_str(&qr)) {
         Ok(s) => s,
         Err(p) => {
             st.violation(ID, "render-panic", format!("to_str panicked: {p} [{}]", rj.spec.describe()), rj.to_json());
